@@ -71,4 +71,10 @@ def jobs(tier):
                                       timeout_s=900, cost=40))
         if not anymap or thorough:
             J.append(dict(harness=R, params=dict(N=N, prog=prog, inp='state', r=1, config='circuit' if not (heavy or twoq) else 'plain'), timeout_s=900, cost=40))
+    # histories around compose (shared with C09): backward must undo forward for BOTH circuits afterwards
+    for N in (2, 3):
+        for places in ([[0, 1]], [[0], [0, 1]], [[0, 1], [1]]) + (([[0, 1], [1, 2]], [[0, 2], [1]]) if N == 3 else ()):
+            for extra in ([0], [0, 1], [N - 1]):
+                for scenario in ('extend_total', 'extend_part'):
+                    J.append(dict(harness=('circuits', 'h_compose_history'), params=dict(N=N, places=places, extra=extra, scenario=scenario), timeout_s=300, cost=5))
     return J
